@@ -554,168 +554,3 @@ theorem knownRootType_panic_iff (s : Schema) (d : QueryDoc) :
     exact ⟨e, he, m, hm⟩
 
 end Gql.Validate
-
-/- ====================================================================================
-   The final theorems (to be moved to Props/C08.lean)
-   ==================================================================================== -/
-section C08
-open Gql Gql.Validate Gql.Validate.Rules
-
-/-- §5.5.1.2 (and the existence of variable types) — KnownTypeNames reports nothing iff every type
-    condition written in the document (fragment definitions; inline fragments that have one) and
-    the named type of every variable definition is defined in the schema.  No hypothesis: an inline
-    fragment without type condition is skipped by the rule and by `Spec.typeConditions` alike, and a
-    fragment definition with the (unparseable) empty type condition is looked up by both. -/
-theorem C08_KnownTypeNames (s : Schema) (d : QueryDoc) :
-    validate [knownTypeNames] s d = .ok [] ↔
-      (Spec.fragmentSpreadTypeExistence s d = true ∧ Spec.variableTypesExist s d = true) := by
-  obtain ⟨evs, hw⟩ := walkDoc_isSome s.view d
-  unfold knownTypeNames
-  rw [validate_stateless_nil s d _ _ evs hw]
-  exact knownTypeNames_iff s d evs hw
-
-/-- the twin rule without suggestions is silent on exactly the same documents -/
-theorem C08_KnownTypeNamesWithoutSuggestions (s : Schema) (d : QueryDoc) :
-    validate [knownTypeNamesWithoutSuggestions] s d = .ok [] ↔
-      (Spec.fragmentSpreadTypeExistence s d = true ∧ Spec.variableTypesExist s d = true) := by
-  unfold knownTypeNamesWithoutSuggestions
-  rw [validate_withoutSuggestions_nil]
-  exact C08_KnownTypeNames s d
-
-/-- what VariablesAreInputTypes really tests: every variable whose named type EXISTS has an input
-    type (the rule is silent on a variable of an undefined type; KnownTypeNames reports that) -/
-theorem C08_VariablesAreInputTypes_iff (s : Schema) (d : QueryDoc) :
-    validate [variablesAreInputTypes] s d = .ok [] ↔
-      (d.ops.all fun op => op.vars.all fun v =>
-        match s.type? v.type.name with | some t => Spec.isInput t | none => true) = true := by
-  obtain ⟨evs, hw⟩ := walkDoc_isSome s.view d
-  unfold variablesAreInputTypes
-  rw [validate_stateless_nil s d _ _ evs hw]
-  exact variablesAreInputTypes_iff s d evs hw
-
-/-- §5.8.2, masked form — for documents whose variable types all exist, VariablesAreInputTypes
-    reports nothing iff the specification predicate holds -/
-theorem C08_VariablesAreInputTypes (s : Schema) (d : QueryDoc) (hex : Spec.variableTypesExist s d = true) :
-    validate [variablesAreInputTypes] s d = .ok [] ↔ Spec.variablesAreInputTypes s d = true := by
-  rw [C08_VariablesAreInputTypes_iff]
-  exact variablesAreInputTypes_masked s d hex
-
-/-- §5.5.1.2 ∧ §5.8.2, joint form without hypothesis: KnownTypeNames and VariablesAreInputTypes are
-    both silent iff every type condition is defined and every variable has an (existing) input type -/
-theorem C08_KnownTypeNames_VariablesAreInputTypes (s : Schema) (d : QueryDoc) :
-    (validate [knownTypeNames] s d = .ok [] ∧ validate [variablesAreInputTypes] s d = .ok []) ↔
-      (Spec.fragmentSpreadTypeExistence s d = true ∧ Spec.variablesAreInputTypes s d = true) := by
-  rw [C08_KnownTypeNames]
-  constructor
-  · rintro ⟨⟨h1, h2⟩, h3⟩
-    exact ⟨h1, (C08_VariablesAreInputTypes s d h2).1 h3⟩
-  · rintro ⟨h1, h2⟩
-    have hex := variablesAreInputTypes_exist s d h2
-    exact ⟨⟨h1, hex⟩, (C08_VariablesAreInputTypes s d hex).2 h2⟩
-
-/-- library rule — KnownRootType reports nothing (and does not panic) iff the schema defines the
-    root type of the kind of every operation.  NO hypothesis on the operation kinds is needed: for a
-    kind the parser never produces the rule panics (so the run is not `.ok []`) and
-    `Spec.rootDef` is `none` (so the specification predicate is false). -/
-theorem C08_KnownRootType (s : Schema) (d : QueryDoc) :
-    validate [knownRootType] s d = .ok [] ↔ Spec.knownRootType s d = true := by
-  obtain ⟨evs, hw⟩ := walkDoc_isSome s.view d
-  unfold knownRootType
-  rw [validate_statelessP_nil s d _ _ evs hw]
-  exact knownRootType_iff s d evs hw
-
-/-- the form with the parser-kinds hypothesis, as used by the other C08 theorems (a corollary) -/
-theorem C08_KnownRootType_parserKinds (s : Schema) (d : QueryDoc) (_hk : ∀ op ∈ d.ops, op.op ∈ parserOpKinds) :
-    validate [knownRootType] s d = .ok [] ↔ Spec.knownRootType s d = true :=
-  C08_KnownRootType s d
-
-/-- KnownRootType panics exactly when some operation has a kind the parser never produces; for
-    parser-produced documents it never does -/
-theorem C08_KnownRootType_panic_iff (s : Schema) (d : QueryDoc) :
-    (∃ m, validate [knownRootType] s d = .panic m) ↔ ∃ op ∈ d.ops, op.op ∉ parserOpKinds :=
-  knownRootType_panic_iff s d
-
-/- ---------- witnesses (kernel-checked) ---------- -/
-namespace TypeRulesWitness
-def at' (n : Nat) : Pos := { start := n, stop := n + 1, line := 1, col := n + 1 }
-def tNamed (n : String) : GType := .named (str n) false Pos.zero
-def scalar (n : String) : Definition :=
-  { kind := .scalar, desc := [], name := str n, dirs := [], interfaces := [], fields := [], types := [],
-    enumValues := [], pos := Pos.zero, builtIn := true }
-
-def objectDef (n : String) : Definition :=
-  { kind := .object, desc := [], name := str n, dirs := [], interfaces := [],
-    fields := [{ desc := [], name := str "f", args := [], default := none, type := tNamed "Int", dirs := [], pos := Pos.zero }],
-    types := [], enumValues := [], pos := Pos.zero, builtIn := false }
-
-/-- `type Query { f: Int }` with the scalar `Int` -/
-def schema : Schema :=
-  { Schema.empty with
-    query := some (str "Query"),
-    types := [(str "Int", scalar "Int"), (str "Query", objectDef "Query")] }
-
-def fld : Selection := .field [] (str "f") [] [] .nil (at' 30)
-
-/-- `<kind> ($v: <ty>) { f }` -/
-def docVar (kind ty : String) : QueryDoc :=
-  { ops := [{ op := str kind, name := [],
-              vars := [{ var := str "v", type := tNamed ty, default := none, dirs := [], pos := at' 7 }],
-              dirs := [], sel := .cons fld .nil, pos := at' 0 }],
-    frags := [] }
-
-/-- `{ ... on <tc> { f } }` (`tc = ""`: `{ ... { f } }`) -/
-def docInline (tc : String) : QueryDoc :=
-  { ops := [{ op := str "query", name := [], vars := [], dirs := [],
-              sel := .cons (.inline (str tc) [] (.cons fld .nil) (at' 2)) .nil, pos := at' 0 }],
-    frags := [] }
-end TypeRulesWitness
-open TypeRulesWitness
-
-/-- KnownTypeNames, both sides true: `query ($v: Int) { f }` … -/
-example : validate [knownTypeNames] schema (docVar "query" "Int") = .ok [] ∧
-    (Spec.fragmentSpreadTypeExistence schema (docVar "query" "Int") = true ∧
-      Spec.variableTypesExist schema (docVar "query" "Int") = true) := by decide
-/-- … and `{ ... { f } }`: an inline fragment without type condition is skipped by both sides -/
-example : validate [knownTypeNames] schema (docInline "") = .ok [] ∧
-    Spec.fragmentSpreadTypeExistence schema (docInline "") = true := by decide
-/-- both sides false: `{ ... on Nope { f } }` (type condition) and `query ($v: Nope) { f }` (variable type) -/
-example : validate [knownTypeNames] schema (docInline "Nope") ≠ .ok [] ∧
-    Spec.fragmentSpreadTypeExistence schema (docInline "Nope") = false := by decide
-example : validate [knownTypeNames] schema (docVar "query" "Nope") ≠ .ok [] ∧
-    Spec.variableTypesExist schema (docVar "query" "Nope") = false := by decide
-
-/-- the hypothesis `hex` of `C08_VariablesAreInputTypes` is NEEDED: on `query ($v: Nope) { f }` (a
-    variable of an undefined type) the rule is silent and the specification predicate is false -/
-example : validate [variablesAreInputTypes] schema (docVar "query" "Nope") = .ok [] ∧
-    Spec.variablesAreInputTypes schema (docVar "query" "Nope") = false ∧
-    Spec.variableTypesExist schema (docVar "query" "Nope") = false := by decide
-/-- … and satisfiable: `query ($v: Int) { f }` (both sides true), `query ($v: Query) { f }` (both false) -/
-example : Spec.variableTypesExist schema (docVar "query" "Int") = true ∧
-    validate [variablesAreInputTypes] schema (docVar "query" "Int") = .ok [] ∧
-    Spec.variablesAreInputTypes schema (docVar "query" "Int") = true := by decide
-example : Spec.variableTypesExist schema (docVar "query" "Query") = true ∧
-    validate [variablesAreInputTypes] schema (docVar "query" "Query") ≠ .ok [] ∧
-    Spec.variablesAreInputTypes schema (docVar "query" "Query") = false := by decide
-
-/-- KnownRootType: an operation of kind `foo` makes the run panic — and the specification predicate
-    is false there, so `C08_KnownRootType` needs no hypothesis on the kinds -/
-example : validate [knownRootType] schema (docVar "foo" "Int") = .panic (str "got unknown operation type \"foo\"") ∧
-    Spec.knownRootType schema (docVar "foo" "Int") = false := by decide
-/-- both sides true (`query`), both false without panic (`mutation`: the schema has no mutation type) -/
-example : (∀ op ∈ (docVar "query" "Int").ops, op.op ∈ parserOpKinds) ∧
-    validate [knownRootType] schema (docVar "query" "Int") = .ok [] ∧
-    Spec.knownRootType schema (docVar "query" "Int") = true := by decide
-example : (∀ op ∈ (docVar "mutation" "Int").ops, op.op ∈ parserOpKinds) ∧
-    (match validate [knownRootType] schema (docVar "mutation" "Int") with | .ok [_] => true | _ => false) = true ∧
-    Spec.knownRootType schema (docVar "mutation" "Int") = false := by decide
-
-#print axioms C08_KnownTypeNames
-#print axioms C08_KnownTypeNamesWithoutSuggestions
-#print axioms C08_VariablesAreInputTypes_iff
-#print axioms C08_VariablesAreInputTypes
-#print axioms C08_KnownTypeNames_VariablesAreInputTypes
-#print axioms C08_KnownRootType
-#print axioms C08_KnownRootType_parserKinds
-#print axioms C08_KnownRootType_panic_iff
-
-end C08
